@@ -299,7 +299,10 @@ class SysWorld:
                     else:
                         el.value = tok
                 vec.submit()
-            self.run(go)
+            try:
+                self.run(go)
+            except Exception as e:          # the application's call into the library raised: an observation, not a harness failure
+                self.loop.unhandled.append({"message": f"client write raised {type(e).__name__}: {e}"})
         elif o == "snoop":
             self.add_snooper(op["owner"], op["target"], None if op["name"] == NONE else op["name"])
         elif o == "rehandshake":
